@@ -12,6 +12,34 @@ from abnf.parser import (Alternation, Concatenation, GrammarError, Literal, Opti
 
 sys.setrecursionlimit(20000)
 
+
+class SlowCase(Exception):
+    """raised by time_limit: the library call ran longer than the harness allows (running time is a runtime
+    effect, not semantics: the case is skipped, never reported)"""
+
+
+class time_limit:
+    def __init__(self, seconds):
+        self.seconds = seconds
+
+    def __enter__(self):
+        import signal
+        import threading
+        self.active = threading.current_thread() is threading.main_thread()
+        if self.active:
+            def handler(signum, frame):
+                raise SlowCase()
+            self.old = signal.signal(signal.SIGALRM, handler)
+            signal.setitimer(signal.ITIMER_REAL, self.seconds)
+        return self
+
+    def __exit__(self, *a):
+        import signal
+        if self.active:
+            signal.setitimer(signal.ITIMER_REAL, 0)
+            signal.signal(signal.SIGALRM, self.old)
+        return False
+
 _cls_counter = [0]
 
 
@@ -222,6 +250,8 @@ def canon_matches(ms):
 
 
 def exc_name(e):
+    if isinstance(e, SlowCase):
+        raise e
     if isinstance(e, ParseError):
         return "PERR"
     if isinstance(e, GrammarError):
